@@ -107,9 +107,15 @@ class Check(CheckBase):
                     for n in names:
                         doomed |= {world.users[world.snaps[n].user].ref.chunk_loc(d) for d in world.snaps[n].digests}
                     if op == 'idel':
-                        await world.delete_interrupted(u, names)
-                        continue
-                    await world.delete(u, names)
+                        hits = world.store.fault_hits
+                        if await world.delete_interrupted(u, names):
+                            continue
+                        # the command COMPLETED although a chunk deletion may have failed for good: the
+                        # completeness clause applies to it like to any other completed delete
+                        if world.store.fault_hits > hits:
+                            world.count('deletes_completed_despite_fault')
+                    else:
+                        await world.delete(u, names)
                     world.count('deletes_checked')
                     objects = world.store.snapshot_objects()
                     still_refd = world.referenced_by_family(objects).get(fam, set())
